@@ -45,10 +45,22 @@ void MainSolver::verifTraceState(char const * op, std::string const & extra) con
     if (not veriftrace::on()) { return; }
     std::string flags;
     for (std::size_t i = 0; i < frames.frameCount(); ++i) { flags += (i ? " " : ""); flags += (frames[i].unsat ? "1" : "0"); }
+    // activation literals of the live frames above the base frame, as far as the SAT solver knows them (0 = none yet)
+    std::string frameLits;
+    for (std::size_t i = 1; i < frames.frameCount(); ++i) {
+        PTRef frameTerm = frameTerms[frames[i].getId()];
+        frameLits += (i > 1 ? " " : "");
+        if (term_mapper->hasLit(frameTerm)) {
+            Lit l = term_mapper->getLit(frameTerm);
+            frameLits += std::to_string(sign(l) ? -(var(l) + 1) : (var(l) + 1));
+        } else {
+            frameLits += "0";
+        }
+    }
     char buf[32];
     std::snprintf(buf, sizeof buf, "%p", static_cast<void const *>(this));
     veriftrace::line(std::string("(ms ") + buf + " " + op + " (frames " + std::to_string(frames.frameCount()) + ") (unsat " + flags
-                     + ") (fns " + std::to_string(firstNotSimplifiedFrame) + ") (inserted " + std::to_string(insertedFormulasCount) + ")"
+                     + ") (fns " + std::to_string(firstNotSimplifiedFrame) + ") (inserted " + std::to_string(insertedFormulasCount) + ") (frame-lits " + frameLits + ")"
                      + (extra.empty() ? "" : " " + extra) + ")");
 }
 #endif
